@@ -1,5 +1,5 @@
 import Aiortc.Props.C03
-import Aiortc.Lemmas.C03.Ops
+import Aiortc.Lemmas.C03.RoleEx
 /-!
 # C03, round 2 — every exchange of every script succeeds
 
@@ -74,22 +74,26 @@ structure Inv (P : Kind → List Cap → Prop) (s : Pc × Pc) : Prop where
   paired : Paired s.1 s.2
   prefs1 : PrefsIn P s.1
   prefs2 : PrefsIn P s.2
+  /-- DTLS roles: each connection has one definite role value, the two are opposite -/
+  roles : RolePair s.1 s.2
 
 theorem inv_new {P : Kind → List Cap → Prop} (p1 p2 : Policy) : Inv P (Pc.new p1, Pc.new p2) :=
-  ⟨WF.new p1, WF.new p2, ⟨rfl, fun _ => Iff.rfl⟩, fun t ht => by simp [Pc.new] at ht, fun t ht => by simp [Pc.new] at ht⟩
+  ⟨WF.new p1, WF.new p2, ⟨rfl, fun _ => Iff.rfl⟩, fun t ht => by simp [Pc.new] at ht, fun t ht => by simp [Pc.new] at ht,
+    rolePair_new p1 p2⟩
 
 theorem inv_setup {P : Kind → List Cap → Prop} {s : Pc × Pc} (h : Inv P s) (p : Bool) {f : Pc → Pc}
-    (hf : ∀ pc, SetupOk P pc (f pc)) : Inv P (onPeer s p f) := by
+    (hf : ∀ pc, SetupOk P pc (f pc)) (hrw : ∀ pc r, RWF pc r → RWF (f pc) r) : Inv P (onPeer s p f) := by
   unfold onPeer
+  obtain ⟨ro, ra, hopp, Ro, Ra⟩ := h.roles
   cases p
   · simp only [Bool.false_eq_true, if_false]
     have := hf s.1
     refine ⟨this.wf h.wf1, h.wf2, ⟨by rw [keys_of_slots this.slots]; exact h.paired.keys, fun x => by rw [this.seen]; exact h.paired.seen x⟩,
-      this.prefs h.prefs1, h.prefs2⟩
+      this.prefs h.prefs1, h.prefs2, ⟨ro, ra, hopp, hrw _ _ Ro, Ra⟩⟩
   · simp only [if_true]
     have := hf s.2
     refine ⟨h.wf1, this.wf h.wf2, ⟨by rw [keys_of_slots this.slots]; exact h.paired.keys, fun x => by rw [this.seen]; exact h.paired.seen x⟩,
-      h.prefs1, this.prefs h.prefs2⟩
+      h.prefs1, this.prefs h.prefs2, ⟨ro, ra, hopp, Ro, hrw _ _ Ra⟩⟩
 
 /-- what every exchange of a script looks like -/
 structure ExGood (ex : Exchange) : Prop where
@@ -106,13 +110,17 @@ structure ExGood (ex : Exchange) : Prop where
 structure Extends (s s' : Pc × Pc) : Prop where
   keys : ∃ rest, s'.1.keys = s.1.keys ++ rest ∧ ∀ kx ∈ rest, kx.2 ∉ s.1.seenMids
   seen : ∀ x, x ∈ s.1.seenMids → x ∈ s'.1.seenMids
+  /-- ROLE STABILITY: a transport whose DTLS role is definite keeps that role for ever -/
+  roles1 : ∀ id r, (r = .client ∨ r = .server) → s.1.roleOf id = r → s'.1.roleOf id = r
+  roles2 : ∀ id r, (r = .client ∨ r = .server) → s.2.roleOf id = r → s'.2.roleOf id = r
 
-theorem Extends.refl (s : Pc × Pc) : Extends s s := ⟨⟨[], by simp, by simp⟩, fun _ h => h⟩
+theorem Extends.refl (s : Pc × Pc) : Extends s s := ⟨⟨[], by simp, by simp⟩, fun _ h => h, fun _ _ _ h => h, fun _ _ _ h => h⟩
 
 theorem Extends.trans {a b c : Pc × Pc} (h1 : Extends a b) (h2 : Extends b c) : Extends a c := by
   obtain ⟨r1, e1, f1⟩ := h1.keys
   obtain ⟨r2, e2, f2⟩ := h2.keys
-  refine ⟨⟨r1 ++ r2, by rw [e2, e1, List.append_assoc], ?_⟩, fun x hx => h2.seen x (h1.seen x hx)⟩
+  refine ⟨⟨r1 ++ r2, by rw [e2, e1, List.append_assoc], ?_⟩, fun x hx => h2.seen x (h1.seen x hx),
+    fun id r hr h => h2.roles1 id r hr (h1.roles1 id r hr h), fun id r hr h => h2.roles2 id r hr (h1.roles2 id r hr h)⟩
   intro kx hkx
   rcases List.mem_append.mp hkx with h | h
   · exact f1 kx h
@@ -134,35 +142,45 @@ theorem exchange_extends {o a : Pc} {ex : Exchange} (hok : ExchangeOk o a ex) :
 /-- one operation -/
 theorem step_ok {P : Kind → List Cap → Prop} (hP : PrefsOk P) {s : Pc × Pc} (h : Inv P s) {op : Op} (hv : op.Valid P) :
     ∃ s' e, step s op = .ok (s', e) ∧ Inv P s' ∧ Extends s s' ∧ (∀ ex ∈ e.toList, ExGood ex) := by
-  have same : ∀ (p : Bool) (f : Pc → Pc), (∀ pc, SetupOk P pc (f pc)) → Extends s (onPeer s p f) := by
-    intro p f hf
+  have same : ∀ (p : Bool) (f : Pc → Pc), (∀ pc, SetupOk P pc (f pc)) → (∀ pc, RoleSame pc.transports (f pc).transports) →
+      Extends s (onPeer s p f) := by
+    intro p f hf hrs
+    have hst : ∀ pc id r, pc.roleOf id = r → (f pc).roleOf id = r := by
+      intro pc id r hid
+      rw [roleOf_eq] at hid ⊢
+      rw [(hrs pc).lookup]; exact hid
     unfold onPeer
     cases p
     · simp only [Bool.false_eq_true, if_false]
-      exact ⟨⟨[], by simp [keys_of_slots (hf s.1).slots], by simp⟩, fun x hx => by rw [(hf s.1).seen]; exact hx⟩
+      exact ⟨⟨[], by simp [keys_of_slots (hf s.1).slots], by simp⟩, fun x hx => by rw [(hf s.1).seen]; exact hx,
+        fun id r _ h => hst _ id r h, fun _ _ _ h => h⟩
     · simp only [if_true]
-      exact ⟨⟨[], by simp, by simp⟩, fun x hx => hx⟩
+      exact ⟨⟨[], by simp, by simp⟩, fun x hx => hx, fun _ _ _ h => h, fun id r _ h => hst _ id r h⟩
   cases op with
   | addTransceiver p k d tr =>
     have hf : ∀ pc, SetupOk P pc (pc.addTransceiver k d tr) := fun pc => setupOk_createTransceiver hP.nil pc d hv tr
-    exact ⟨_, none, rfl, inv_setup h p hf, same p _ hf, by simp⟩
+    exact ⟨_, none, rfl, inv_setup h p hf (fun pc r hr => rwf_createTransceiver hr d k tr),
+      same p _ hf (fun pc => (roleSame_setup pc).1 d k tr), by simp⟩
   | addTrack p k =>
     have hf : ∀ pc, SetupOk P pc (pc.addTrack k) := fun pc => setupOk_addTrack hP.nil pc hv
-    exact ⟨_, none, rfl, inv_setup h p hf, same p _ hf, by simp⟩
+    exact ⟨_, none, rfl, inv_setup h p hf (fun pc r hr => rwf_addTrack hr k), same p _ hf (fun pc => (roleSame_setup pc).2.1 k), by simp⟩
   | createDataChannel p =>
     have hf : ∀ pc, SetupOk P pc pc.createDataChannel := fun pc => setupOk_createDataChannel P pc
-    exact ⟨_, none, rfl, inv_setup h p hf, same p _ hf, by simp⟩
+    exact ⟨_, none, rfl, inv_setup h p hf (fun pc r hr => rwf_createDataChannel hr), same p _ hf (fun pc => (roleSame_setup pc).2.2.1), by simp⟩
   | setCodecPreferences p i caps =>
     have hf : ∀ pc, SetupOk P pc (pc.trySetCodecPreferences i caps) := fun pc => setupOk_setCodecPreferences pc i caps hv
-    exact ⟨_, none, rfl, inv_setup h p hf, same p _ hf, by simp⟩
+    exact ⟨_, none, rfl, inv_setup h p hf (fun pc r hr => rwf_trySetCodecPreferences hr i caps),
+      same p _ hf (fun pc => (roleSame_setup pc).2.2.2.1 i caps), by simp⟩
   | setDirection p i d =>
     have hf : ∀ pc, SetupOk P pc (pc.trySetDirection i d) := fun pc => setupOk_setDirection P pc i d
-    exact ⟨_, none, rfl, inv_setup h p hf, same p _ hf, by simp⟩
+    exact ⟨_, none, rfl, inv_setup h p hf (fun pc r hr => rwf_trySetDirection hr i d),
+      same p _ hf (fun pc => (roleSame_setup pc).2.2.2.2 i d), by simp⟩
   | negotiate p =>
     cases p
     · obtain ⟨ex, hn, hok⟩ := negotiate_ok h.wf1 h.wf2 h.paired (compatible_of_prefsOk hP h.prefs1 h.prefs2)
+      obtain ⟨hrp, hst1, hst2⟩ := exchange_roles h.wf1 h.wf2 h.paired hok h.roles
       refine ⟨(ex.offerer, ex.answerer), some ex, by simp [step, hn], ?_, ?_, ?_⟩
-      · refine ⟨hok.wfO, hok.wfA, hok.paired, ?_, ?_⟩
+      · refine ⟨hok.wfO, hok.wfA, hok.paired, ?_, ?_, hrp⟩
         · intro t ht
           rcases hok.prefsO t ht with he | ⟨t0, ht0, hk, hp⟩
           · rw [he]; exact hP.nil _
@@ -172,11 +190,12 @@ theorem step_ok {P : Kind → List Cap → Prop} (hP : PrefsOk P) {s : Pc × Pc}
           · rw [he]; exact hP.nil _
           · rw [← hk, ← hp]; exact h.prefs2 t0 ht0
       · obtain ⟨hk, hs⟩ := exchange_extends hok
-        exact ⟨hk, hs⟩
+        exact ⟨hk, hs, hst1, hst2⟩
       · intro e he; simp at he; subst he; exact exchange_good hn hok
     · obtain ⟨ex, hn, hok⟩ := negotiate_ok h.wf2 h.wf1 h.paired.symm (compatible_of_prefsOk hP h.prefs2 h.prefs1)
+      obtain ⟨hrp, hst1, hst2⟩ := exchange_roles h.wf2 h.wf1 h.paired.symm hok h.roles.symm
       refine ⟨(ex.answerer, ex.offerer), some ex, by simp [step, hn], ?_, ?_, ?_⟩
-      · refine ⟨hok.wfA, hok.wfO, hok.paired.symm, ?_, ?_⟩
+      · refine ⟨hok.wfA, hok.wfO, hok.paired.symm, ?_, ?_, hrp.symm⟩
         · intro t ht
           rcases hok.prefsA t ht with he | ⟨t0, ht0, hk, hp⟩
           · rw [he]; exact hP.nil _
@@ -186,7 +205,7 @@ theorem step_ok {P : Kind → List Cap → Prop} (hP : PrefsOk P) {s : Pc × Pc}
           · rw [he]; exact hP.nil _
           · rw [← hk, ← hp]; exact h.prefs2 t0 ht0
       · obtain ⟨⟨rest, hk, hf⟩, hs⟩ := exchange_extends hok
-        refine ⟨⟨rest, ?_, ?_⟩, ?_⟩
+        refine ⟨⟨rest, ?_, ?_⟩, ?_, hst2, hst1⟩
         · show ex.answerer.keys = s.1.keys ++ rest
           rw [← hok.paired.keys, hk, h.paired.keys]
         · intro kx hkx hh; exact hf kx hkx ((h.paired.seen _).mp hh)
@@ -198,7 +217,8 @@ theorem step_ok {P : Kind → List Cap → Prop} (hP : PrefsOk P) {s : Pc × Pc}
 /-- **Every exchange of every script succeeds.**  From any pair satisfying the invariant (in particular two new
 connections, `inv_new`), any list of valid operations runs to the end: no call of any exchange raises; the invariant
 holds again; every exchange leaves both sides `stable`, the answer mirroring the offer with definite roles and
-section-wise the negotiated intersection; sections are only appended, mids never re-used. -/
+section-wise the negotiated intersection; sections are only appended, mids never re-used, and a DTLS role that is
+definite never changes (`Extends`). -/
 theorem run_ok {P : Kind → List Cap → Prop} (hP : PrefsOk P) : ∀ (ops : List Op) (s : Pc × Pc), Inv P s → (∀ op ∈ ops, op.Valid P) →
     ∃ s' exs, run s ops = .ok (s', exs) ∧ Inv P s' ∧ Extends s s' ∧ (∀ ex ∈ exs, ExGood ex) := by
   intro ops
